@@ -235,15 +235,40 @@ def _t2(ctx, markers):
     ctx.floor(R, 4)
 
 
+def _t3(ctx):
+    R = "C27-T3"
+    ctx.doc(R, "markers accumulate: a producer adds its own name to the marker set and never replaces the set (the working copy is chained through area, energy, throughput and leak, in any combination of flags)")
+    COMP_ = "accelforge/frontend/arch/components.py"
+    n = 0
+    for fi in ctx.repo.module(COMP_, R).funcs.values():
+        if not fi.name.startswith("calculate_"):
+            continue
+        for st in fi.stmts():
+            for t, v, aug in assigned_targets(st):
+                if isinstance(t, ast.Attribute) and t.attr == "_costs_calculated" and v is not None:
+                    n += 1
+                    tt = norm(t)
+                    keeps = aug and isinstance(st.op, ast.BitOr)
+                    if isinstance(v, ast.BinOp) and isinstance(v.op, ast.BitOr) and tt in (norm(v.left), norm(v.right)):
+                        keeps = True
+                    if isinstance(v, ast.Call) and isinstance(v.func, ast.Attribute) and v.func.attr == "union" and (norm(v.func.value) == tt or any(norm(a) == tt for a in v.args)):
+                        keeps = True
+                    ctx.check(keeps, R, fi, st, f"`{norm(st)}` replaces the marker set: markers of quantities computed by an earlier call are lost, and the next producer in the chain applies its scale factors a second time", "marker added to the existing set")
+    ctx.require(n >= 4, R, f"marker updates in the cost producers: {n}")
+    ctx.floor(R, 4)
+
+
 def check(ctx):
     markers = _t1(ctx)
     _t2(ctx, markers)
+    _t3(ctx)
 
 
 _GUARD_AREA = '''        if "area" in self._costs_calculated:
             return self
 '''
 VARIANTS = [
+    {"kind": "F", "name": "marker-set-replaced", "rule": "C27-T3", "edits": [("accelforge/frontend/arch/components.py", 'self._costs_calculated = self._costs_calculated | {"area"}', 'self._costs_calculated = frozenset({"area"})')]},
     {"kind": "F", "name": "delete-area-marker-test", "rule": "C27-T1",
      "edits": [(COMP, _GUARD_AREA, "")]},
     {"kind": "F", "name": "delete-energy-marker-set", "rule": "C27-T1",
